@@ -23,6 +23,8 @@ fn name_with_spacer_after(k: usize) -> String {
 /// count on each side of the 32-bit boundary; the text is concrete, so symbolic execution is exact).
 fn spacer_after(k: usize) {
   let s = name_with_spacer_after(k);
+  #[cfg(not(kani))]
+  eprintln!("REPLAY-INPUT: SpacedRune::from_str({s:?})");
   let r = s.parse::<SpacedRune>();
   match r {
     Ok(sr) => {
